@@ -4,6 +4,7 @@ package main
 
 import (
 	"bytes"
+	"hash/fnv"
 	"context"
 	"fmt"
 	"os"
@@ -152,8 +153,19 @@ type solveCfg struct {
 	keepAll  bool
 }
 
+// fileBase turns an obligation name into a file name of bounded length.
+func fileBase(name string) string {
+	base := sanitize(name)
+	if len(base) > 180 {
+		h := fnv.New32a()
+		h.Write([]byte(base))
+		base = fmt.Sprintf("%s~%08x", base[:170], h.Sum32())
+	}
+	return base
+}
+
 func writeQuery(dir, name string, body string) string {
-	fn := filepath.Join(dir, sanitize(name)+".smt2")
+	fn := filepath.Join(dir, fileBase(name)+".smt2")
 	_ = os.WriteFile(fn, []byte(body), 0o644)
 	return fn
 }
